@@ -569,10 +569,19 @@ class SgioRelease(_DeviceUnit):
         return [D.close, D.__enter__, D.__exit__, SCSI.__enter__, SCSI.__exit__]
 
     def cases(self, tier):
-        return [{"via": v, "how": h} for v in ("device", "facade") for h in ("close", "with-normal") + tuple("with-exception:" + k for k in EXIT_EXCEPTIONS)]
+        cs = [{"via": v, "how": h} for v in ("device", "facade") for h in ("close", "with-normal") + tuple("with-exception:" + k for k in EXIT_EXCEPTIONS)]
+        # the node is replaced (replug) after the object was created and before the with block is entered / close() is
+        # called: whatever the object does about it, every handle it ever opened is released exactly once
+        cs += [{"via": v, "how": h, "replug": True} for v in ("device", "facade") for h in ("close", "with-normal", "with-exception:RuntimeError")]
+        return cs
 
     def inputs(self, case):
+        if case.get("replug"):
+            return {"ino0": U(32), "ino1": U(32)}
         return {"ino0": U(32)}
+
+    def requires(self, case, a):
+        return [a.ino0 != a.ino1] if case.get("replug") else []
 
     def run(self, X, case, a):
         from pyscsi.pyscsi.scsi import SCSI
@@ -589,6 +598,8 @@ class SgioRelease(_DeviceUnit):
                 obj = object.__new__(SCSI)
                 obj.device = dev
                 obj._blocksize = 0
+            if case.get("replug"):
+                w.inode[PATH] = a.ino1
             if case["how"] == "close":
                 X.call(dev.close)
                 return None
@@ -603,7 +614,11 @@ class SgioRelease(_DeviceUnit):
 
     def ensures(self, case, a, out, X):
         yield "C15", "release-returns", out.kind == "return"
-        yield "C15", "exactly-one-close-on-the-handle", self.h0.close_calls == 1 and len(self.world.events("close")) == 1
+        if case.get("replug"):
+            hs = self.world.handles
+            yield "C15", "every-handle-ever-opened-is-released-exactly-once (%s)" % ", ".join("%d" % h.close_calls for h in hs), len(hs) >= 1 and all(h.close_calls == 1 for h in hs)
+        else:
+            yield "C15", "exactly-one-close-on-the-handle", self.h0.close_calls == 1 and len(self.world.events("close")) == 1
         if out.kind == "return" and out.value is not None:
             yield "C15", "__enter__-returns-the-object", out.value[2]
             if case["how"].startswith("with-exception"):
